@@ -2,7 +2,7 @@
 
    Only theorem statements here; proofs are in StreamProofs / ReaderProofs / RoundTrip /
    CheckProofs. *)
-From Coq Require Import List Bool Arith.
+From Coq Require Import List Bool Arith NArith.
 From Coq Require Import Init.Byte.
 From LMBase Require Import Res.
 From LMTransfac Require Import Bytes Stream Nom TransfacParse TransfacReader TransfacPrint Checkers.
@@ -72,22 +72,34 @@ Theorem reader_roundtrip :
   run_reader (parse_record_fixed al) s = Ok (map (fun r => ORec (expected_record al r)) rs ++ [OEnd]).
 Proof. exact reader_roundtrip_lemma. Qed.
 
-(* What "expected" means for the matrix: the count written in row i under the j-th symbol of
-   the P0 line is the cell of row i in the column of that symbol (sym_index = as_index),
-   every row has K columns and every column not named on the P0 line holds zero. *)
-Theorem expected_cells :
-  forall (al : alpha) (p : prec) (idx : list nat),
-  prec_ok al p = true -> p_syms p <> [] -> sym_indices al (p_syms p) = Some idx ->
-  exists m, r_data (expected_record al p) = Some m /\ length m = length (p_rows p) /\
-  forall i, i < length (p_rows p) ->
+(* What "expected" means.  A record is written as a list of lines (items) in ANY order:
+   AC / ID / NA / DE lines, BA / BS / BF / CO lines (not shown by Record), XX lines and
+   matrix blocks and reference blocks (RN line with optional cross reference, then RX / RA /
+   RT / RL lines).  Every field of the expected record is the value of the LAST line of its
+   kind, the matrix that of the last matrix block, the references those of the reference
+   blocks in file order (number, cross reference, last RX / RT / RL of the block) ... *)
+Theorem expected_record_closed : forall (al : alpha) (p : prec),
+  expected_record al p =
+  mkRec (last_field FID p) (last_field FAC p) (last_field FNA p) (last_field FDE p) (last_matrix al p)
+        (refs_of p).
+Proof. exact expected_record_closed_lemma. Qed.
+
+(* ... and in that matrix the count written in row i under the j-th symbol of the header is
+   the cell of row i in the column of that symbol (sym_index = as_index), every row has K
+   columns and every column not named in the header holds zero. *)
+Theorem matrix_cells :
+  forall (al : alpha) (po : bool) (sep syms : str) (rows : list prow) (idx : list nat),
+  item_ok al (IMatrix po sep syms rows) = true -> sym_indices al syms = Some idx ->
+  exists m, item_matrix al (IMatrix po sep syms rows) = Some m /\ length m = length rows /\
+  forall i, i < length rows ->
     let row := nth i m [] in
-    let toks := pr_toks (nth i (p_rows p) (mkRow [] [] [])) in
+    let toks := pr_toks (nth i rows (mkRow [] [] [])) in
     length row = alpha_k al /\
-    (forall j, j < length (p_syms p) ->
-       sym_index al (nth j (p_syms p) x00) = Some (nth j idx 0) /\
+    (forall j, j < length syms ->
+       sym_index al (nth j syms x00) = Some (nth j idx 0) /\
        nth (nth j idx 0) row CZero = CTok (nth j toks [])) /\
     (forall k, ~ In k idx -> nth k row CZero = CZero).
-Proof. exact expected_cells_lemma. Qed.
+Proof. exact matrix_item_cells. Qed.
 
 (* ---- the extracted checker used by the driver ---- *)
 
@@ -122,28 +134,36 @@ Example ex_chunkings :
   run_reader (parse_record_fixed Dna) [a; b] = Ok [ORec (empty_record); OErr ENom].
 Proof. split; vm_compute; reflexivity. Qed.
 
-(* non-vacuity of the round trip: a well-formed file with a VV header, two records (one with
+(* non-vacuity of the round trip: a well-formed file with a VV header and three records: the
+   first with its lines in an unusual order, a BF line, a repeated ID line (the last wins) and
    a matrix whose header is spelled PO, names the symbols in the order T A G, separates the
-   columns with blank+tab and has a consensus letter after the first row), CRLF, no final
-   newline *)
+   columns with blank+tab and has a consensus letter after the first row; the third empty
+   ("//" only); CRLF, no final newline *)
 Local Open Scope byte_scope.
 Definition ex_recs : list prec :=
-  [ mkPrec (Some ["M";"1"]) None (Some ["n";" ";"1"]) None true [" "; x09] ["T";"A";"G"]
-      [ mkRow ["0";"1"] [["1"]; ["2";".";"5"]; ["0"]] [" ";" ";"W"];
-        mkRow ["0";"2"] [["7"]; ["1";"e";"2"]; ["3"]] [] ];
-    mkPrec None (Some ["a";"c"]) None (Some ["d"]) false [] [] [] ].
+  [ [ IField FNA ["n";" ";"1"]; IXX; ISkip KBF [" ";"f";"a";"c";"t";"o";"r"];
+      IMatrix true [" "; x09] ["T";"A";"G"]
+        [ mkRow ["0";"1"] [["1"]; ["2";".";"5"]; ["0"]] [" ";" ";"W"];
+          mkRow ["0";"2"] [["7"]; ["1";"e";"2"]; ["3"]] [] ];
+      IField FID ["o";"l";"d"]; IXX; IXX; IField FID ["M";"1"];
+      IRef ["1";"2"] (Some ["R";"E";"7"]) [RX ["9";"9"]; RA [" ";"D";"o";"e";" ";"J";"."]; RT ["t";" ";"1"]; RL ["l"]];
+      IRef ["2"] None [] ];
+    [ IField FDE ["d"]; IField FAC ["a";"c"]; IXX ];
+    [] ].
 
 Example ex_wf : wf_file Dna (Some ["v";"1"]) ex_recs = true.
 Proof. vm_compute. reflexivity. Qed.
 
 Example ex_roundtrip_instance :
-  exists r1 r2,
+  exists r1 r2 r3,
     run_reader (parse_record_fixed Dna) [print_file (Some ["v";"1"]) true false ex_recs]
-      = Ok [ORec r1; ORec r2; OEnd] /\
+      = Ok [ORec r1; ORec r2; ORec r3; OEnd] /\
     r_data r1 = Some [[CTok ["2";".";"5"]; CZero; CTok ["1"]; CTok ["0"]; CZero];
                       [CTok ["1";"e";"2"]; CZero; CTok ["7"]; CTok ["3"]; CZero]] /\
-    r_id r1 = Some ["M";"1"] /\ r_ac r2 = Some ["a";"c"] /\ r_data r2 = None.
-Proof. eexists _, _. vm_compute. repeat split. Qed.
+    r_id r1 = Some ["M";"1"] /\ r_ac r2 = Some ["a";"c"] /\ r_data r2 = None /\ r3 = empty_record /\
+    r_refs r1 = [mkRef 12%N (Some ["R";"E";"7"]) (Some ["t";" ";"1"]) (Some ["l"]) (Some ["9";"9"]);
+                 mkRef 2%N None None None None].
+Proof. eexists _, _, _. vm_compute. repeat split. Qed.
 
 (* counts: everything nom's float parser accepts entirely is a well-formed count token *)
 Example ex_tokens :
